@@ -27,6 +27,17 @@ RANGE_PANIC_METHODS = {
     "core::slice::<impl [T]>::clone_from_slice": "copy_from_slice",
     "bytes::bytes::Bytes::slice": "bytes_slice", "bytes::bytes::Bytes::split_to": "bytes_slice",
     "bytes::bytes::Bytes::split_off": "bytes_slice", "bytes::bytes_mut::BytesMut::split_to": "bytes_slice",
+    "base64::decode::decode_config_slice": "outbuf", "base64::decode::decode_engine_slice": "outbuf",
+    "base64::encode::encode_config_slice": "outbuf", "base64::encode::encode_engine_slice": "outbuf",
+    "base64::decode::decode_config_buf": None, "bytes::buf::buf_impl::Buf::advance": "bytes_slice",
+    "bytes::buf::buf_impl::Buf::copy_to_slice": "bytes_slice", "bytes::buf::buf_impl::Buf::get_u64": "bytes_slice",
+    "bytes::buf::buf_impl::Buf::get_u32": "bytes_slice", "bytes::buf::buf_impl::Buf::get_u8": "bytes_slice",
+    "core::slice::<impl [T]>::chunks_exact": "chunks", "core::slice::<impl [T]>::rchunks": "chunks",
+    "core::slice::<impl [T]>::rotate_left": "split_at", "core::slice::<impl [T]>::rotate_right": "split_at",
+    "alloc::vec::Vec::<T, A>::splice": "drain", "alloc::string::String::insert_str": "insert",
+    "alloc::string::String::truncate": "split_off", "alloc::string::String::split_off": "split_off",
+    "core::str::<impl str>::split_at": "split_at", "alloc::collections::vec_deque::VecDeque::<T, A>::insert": "insert",
+    "alloc::collections::vec_deque::VecDeque::<T, A>::swap": "swap",
     "core::iter::traits::iterator::Iterator::sum": "sum", "core::iter::traits::iterator::Iterator::product": "sum",
     "core::iter::traits::iterator::Iterator::step_by": "step_by",
     "core::slice::<impl [T]>::chunks": "chunks", "core::slice::<impl [T]>::windows": "chunks",
@@ -75,7 +86,7 @@ def classify_block(b):
             return ("panic", fn)
         if fn in INDEX_FNS:
             return ("index", b.get("inst") or fn)
-        if fn in RANGE_PANIC_METHODS:
+        if fn in RANGE_PANIC_METHODS and RANGE_PANIC_METHODS[fn] is not None:
             return (RANGE_PANIC_METHODS[fn], fn)
         inst = b.get("inst") or ""
         if fn in ("core::ops::arith::Add::add", "core::ops::arith::Sub::sub", "core::ops::arith::AddAssign::add_assign",
@@ -1141,6 +1152,8 @@ class PanicAnalysis:
     def in_any_actor(self, s):
         if getattr(self, "all_reachable", False):
             return True     # the caller analyses functions that are by definition fed with external input
+        if s.root in self.actor_universe():
+            return True
         for a in self.W.actors:
             if a.fn.path not in self.universe:
                 continue
@@ -1154,6 +1167,28 @@ class PanicAnalysis:
                        "core::fmt::Debug", "crypto::Hash", "core::future::future::Future"):
             return True
         return False
+
+    def actor_universe(self):
+        """Functions reachable from any spawned task or network dispatch handler, with the same edges as the node universe
+        (call graph, trait dispatch, generic-instantiation edges such as bincode::deserialize::<T> -> T's Deserialize impl)."""
+        if not hasattr(self, "_actor_universe"):
+            roots = set()
+            for a in self.W.actors:
+                if a.fn.path in self.universe:
+                    roots |= set(a.roots)
+                    # callees named directly in the spawn closure (incl. generic instantiations seen in MIR of the closure)
+                    for d, m in self.prog.mir.items():
+                        if m["root"] == a.fn.path and d != a.fn.path:
+                            for b in m["blocks"]:
+                                if b["t"] == "call":
+                                    for q in (b.get("fn"), b.get("inst")):
+                                        if q in self.prog.fns:
+                                            roots.add(q)
+            for p_, f_ in self.prog.fns.items():
+                if f_.trait == "network::receiver::MessageHandler":
+                    roots.add(p_)
+            self._actor_universe = self._universe(sorted(roots)) if roots else set()
+        return self._actor_universe
 
     def config_fn(self, f):
         """f takes only `self`, and its whole body is config_only."""
